@@ -14,3 +14,7 @@ pub mod c12;
 pub mod c18;
 #[cfg(feature = "c10")]
 pub mod c10;
+#[cfg(feature = "c09")]
+pub mod c09;
+#[cfg(feature = "c11")]
+pub mod c11;
